@@ -93,7 +93,8 @@ def rule_do_group(chk, tpl):
     nid = dict((k, ev[k][0][0].id) for k in need)
     # documented order = dominance chain in the emitted shape
     # the emitted text is a linearisation: textual position = execution order within a block (nesting is checked below)
-    pos = dict((k, (ev[k][0][0].ast.lineno, getattr(ev[k][0][0].ast, 'col_offset', 0))) for k in need)
+    # positions in the order of emission (line of the lowered skeleton; the template line is kept for the report: a block factored out into another def is emitted at its call site)
+    pos = dict((k, (getattr(ev[k][0][0].ast, 'sline', ev[k][0][0].ast.lineno), getattr(ev[k][0][0].ast, 'col_offset', 0))) for k in need)
     for a, b in zip(need, need[1:]):
         chk.decide(pos[a] < pos[b], 'phase-order', '%s<%s' % (a, b), node=ev[b][0][0].ast, file=TPL, func='do_group',
                    detail_bad='%s (template line %d) is emitted before %s (line %d)' % (b, pos[b][0], a, pos[a][0]),
@@ -178,7 +179,7 @@ def rule_do_group(chk, tpl):
     # update_nnps guard
     for nm in ('nnps.update_domain', 'nnps.update'):
         n = ev[nm][0][0]
-        ln = [l for l in lines if l.tline == n.ast.lineno]
+        ln = [lines[n.ast.sline - 1]] if getattr(n.ast, 'sline', None) else [l for l in lines if l.tline == n.ast.lineno]
         gd = [compact(x) for x in ln[0].guards] if ln else []
         chk.decide(gd == ['group.update_nnps'] and not ln[0].loops, 'phase-guards', nm, node=n.ast, file=TPL, func='do_group',
                    detail_bad='%s emitted under %s / loops %s' % (nm, gd, [U(x.iter) for x in ln[0].loops] if ln else None), detail_ok='if group.update_nnps, once per pass')
@@ -247,7 +248,7 @@ def rule_top(chk, tpl):
                             kind = nm
                 if kind:
                     evs.append((kind, s, p))
-        evs.sort(key=lambda e: (e[1].lineno, getattr(e[1], 'col_offset', 0)))
+        evs.sort(key=lambda e: (getattr(e[1], 'sline', e[1].lineno), getattr(e[1], 'col_offset', 0)))
 
         def inside(a, b):
             return any(a is x for x in ast.walk(b)) and a is not b
